@@ -272,6 +272,48 @@ fn parse_long(ctx: &mut Ctx, small: &Arena, large: &Arena) {
     }
 }
 
+/// UTF-8 well-formedness classes: every lead-byte class boundary followed by 0..=3 bytes from the continuation-range
+/// boundaries (overlong forms, surrogates, values above U+10FFFF, truncated and over-long sequences, stray
+/// continuation bytes), inside an otherwise ASCII text.
+fn utf8_classes(ctx: &mut Ctx, arena: &Arena) {
+    const LEADS: [u8; 22] = [0x7F, 0x80, 0xBF, 0xC0, 0xC1, 0xC2, 0xDF, 0xE0, 0xE1, 0xEC, 0xED, 0xEE, 0xEF, 0xF0, 0xF1, 0xF3, 0xF4, 0xF5, 0xF7, 0xF8, 0xFE, 0xFF];
+    const CONTS: [u8; 8] = [0x7F, 0x80, 0x8F, 0x90, 0x9F, 0xA0, 0xBF, 0xC0];
+    ctx.bound("utf8_classes", "texts 'a' + sequence + 'b' + NUL where the sequence is a lead byte from {7F,80,BF,C0,C1,C2,DF,E0,E1,EC,ED,EE,EF,F0,F1,F3,F4,F5,F7,F8,FE,FF} followed by 0..=3 bytes over {7F,80,8F,90,9F,A0,BF,C0} (12870 sequences: every boundary of the UTF-8 well-formedness table), and the same with the sequence directly before the NUL; the three string kinds, tag level");
+    for kind in KINDS.iter() {
+        for &lead in &LEADS {
+            for k in 0..=3usize {
+                for code in 0..CONTS.len().pow(k as u32) {
+                    for tail_b in [true, false] {
+                        let mut content = vec![b'a', lead];
+                        for i in 0..k {
+                            content.push(CONTS[(code / CONTS.len().pow(i as u32)) % CONTS.len()]);
+                        }
+                        if tail_b {
+                            content.push(b'b');
+                        }
+                        content.push(0);
+                        let img = tag_image(kind, &content);
+                        let mut padded = img.clone();
+                        while padded.len() % 8 != 0 {
+                            padded.push(0);
+                        }
+                        let describe = || J::obj().set("seam", "tag-utf8").set("kind", kind.name).set("content", J::hex(&content));
+                        ctx.leaf(describe, |ctx| {
+                            ctx.state_direct();
+                            ctx.nontrivial();
+                            arena.fill(arena::FILL_A);
+                            let p = arena.place_right(&padded);
+                            let slice: &[u8] = unsafe { std::slice::from_raw_parts(p, padded.len()) };
+                            let r = ctx.call("cast+text", || typed_text(kind, Generic::ref_from_slice(slice).unwrap()));
+                            judge(ctx, kind, &content, r, "tag");
+                        });
+                    }
+                }
+            }
+        }
+    }
+}
+
 #[cfg(feature = "builder")]
 fn build_side(ctx: &mut Ctx) {
     use multiboot2::MaybeDynSized;
@@ -375,6 +417,7 @@ fn run(ctx: &mut Ctx) {
     parse_side(ctx, &arena);
     let long_arena = Arena::new(4200);
     parse_long(ctx, &arena, &long_arena);
+    utf8_classes(ctx, &arena);
     if !ctx.uniform() {
         build_side(ctx);
     }
